@@ -853,7 +853,7 @@ def native_main(a):
                 fk, fe = a['fault']
                 s.problem.fn = lambda ys, i: (_raise(EXC_TYPES[fe]()) if i == fk else (zs_new[i - base] if 0 <= i - base < len(zs_new) else 0.0))
                 s.method.parameters.eps = 1e-12
-                s.method.parameters.itersLimit = 10 ** 6
+                s.method.parameters.itersLimit = int(s.method.iterationsCount) + 4
                 buf = io.StringIO()
                 with contextlib.redirect_stdout(buf):
                     n0 = len(s.problem.started)
